@@ -415,6 +415,13 @@ def run(ctx):
     rules.append(cell_cleaning_rule(ctx, "C11", "C11.R7"))
     rules.append(_create_survey_history_rule(ctx))
     rules.append(_settings_row_rule(ctx))
+    # shared with C12.R2 (readers as siblings)
+    from . import c12 as _c12s
+    from .c08 import _take as _take_s
+    r_s = Rule("C11", "C11.R10", "the settings that reach the header are those of the sheet named settings", floor=3,
+               necessary="a stray copy of the settings sheet replacing the real one changes title, id and version silently")
+    _take_s(r_s, _c12s.run(ctx), "C12.R2", lambda c: c.startswith("xls_to_dict:stray sheet copy") or c.startswith("xlsx_to_dict:stray sheet copy"))
+    rules.append(r_s)
     return rules
 
 
